@@ -8,6 +8,7 @@ real code is run on the canonical file and on ALL of:
   layout  one token per line / everything on one line / CRLF line ends / tabs / blank lines between all lines
   comment '# ...' at line ends, '/* ... */' between tokens, nested /* /* */ */, a '#'-word inside a block comment, comment
           markers inside the quoted title
+  droop   file-embedded options written as one [droop a b c] group or as several groups
   nick    with a [nick ...] option: ballots, [tie] and [withdrawn] written with nicknames instead of numbers
 Oracle: the whole record as JSON (every action, every field, header) identical to the canonical presentation's for every variant, and dump() / report()
 byte-identical for the first variant of each kind and every fifth variant (they are functions of the record).  For layout / comment / nick
@@ -34,11 +35,17 @@ def compositions(m):
             yield (first,) + rest
 
 
-def tokens(case, ballots, nick=None, use_nick=False):
+def tokens(case, ballots, nick=None, use_nick=False, droop_groups=None):
     "token list of a BLT file, grouped in lines (list of lists)"
     n, s = case['n'], case['s']
-    ref = (lambda c: nick[c - 1]) if (nick and use_nick) else str
+    ref0 = (lambda c: nick[c - 1]) if (nick and use_nick) else str
+
+    def ref(c):
+        return '='.join(ref0(x) for x in c) if isinstance(c, (tuple, list)) else ref0(c)
     lines = [[str(n), str(s)]]
+    if case.get('droop'):
+        for grp in (droop_groups or [case['droop']]):
+            lines.append(['[droop'] + list(grp[:-1]) + [grp[-1] + ']'])
     if nick:
         lines.append(['[nick'] + list(nick[:-1]) + [nick[-1] + ']'])
     tie = case.get('tie')
@@ -84,7 +91,7 @@ class C10(Check):
     pid = 'C10'
     level = 'exploration'
     rule = ('U(3,<=4) x seats x {none, reversed tie order, one withdrawn} and quick: U(3,<=3) in full, U(3,4) and weighted W(3,2,3,{2,3}) x seats {1,2} under a subset of configurations; thorough: U(3,<=4) in full, W(3,3,3,{2,3,5}), U(3,5), W(4,2,3,{1,2,3}); every presentation variant of the '
-            'module docstring is generated for each profile; 11 rules + wigm fixed-2 / fixed-4 / guarded 6+3 and meek fixed-4 for the perm/split variants. '
+            'module docstring is generated for each profile; 11 rules + wigm fixed-2 / fixed-4 / guarded 6+3 and meek fixed-4 for the perm/split variants; equal-rank profiles Q(3,<=3) under meek / warren with fixed, guard-0 and rational arithmetic. '
             'evaluations = variant runs compared with the canonical run; distinct_nontrivial = distinct (profile, configuration, variant) whose count is not decided at begin')
     assumptions = ['bounded election sizes', 'simple candidate names (C15 covers names with spaces / comment markers)']
     budget = {'quick': 240, 'thorough': 3000}
@@ -109,6 +116,14 @@ class C10(Check):
         for b in (spaces.W(3, 2, 3, (2, 3)) if q else spaces.W(3, 3, 3, (2, 3, 5))):
             for s in (1, 2):
                 yield dict(ecase.make(3, s, b), cfgs=D[::3] if q else D, full=False, allperm=True)
+        eq = [{'rule': 'meek', 'arithmetic': 'fixed', 'precision': 4}, {'rule': 'warren', 'arithmetic': 'rational', 'omega': 3}, {'rule': 'meek'},
+              {'rule': 'warren', 'arithmetic': 'guarded', 'precision': 4, 'guard': 0}]
+        for b in spaces.Q(3, 0, 3 if q else 4):        # equal-rank ballots (read by meek / warren): merged vs split vs permuted
+            if max(m for m, _ in b) > 1 or not q:
+                yield dict(ecase.make(3, 1, b), cfgs=eq, full=False, allperm=True)
+        for b in spaces.U(3, 0, 3):                    # options embedded in the file, written as one or several [droop ...] groups
+            yield dict(ecase.make(3, 1, b), cfgs=[{'rule': 'meek'}, {'rule': 'wigm'}], full=False, allperm=False,
+                       droop=['arithmetic=fixed', 'precision=3', 'omega=2'])
         if not q:
             for b in spaces.U(3, 5, 5):
                 for s in (1, 2):
@@ -119,7 +134,7 @@ class C10(Check):
 
     def variants(self, case):
         "yield (kind, text, recount_all) for every presentation variant"
-        ballots = [(m, tuple(r)) for m, r in case['b']]
+        ballots = [(m, tuple(tuple(x) if isinstance(x, list) else x for x in r)) for m, r in case['b']]
         n = case['n']
         # perm
         k = len(ballots)
@@ -144,6 +159,10 @@ class C10(Check):
             yield 'split', join(tokens(case, units[::-1])), True
             inter = sorted(units, key=lambda x: h64(x))
             yield 'split', join(tokens(case, inter)), True
+        if case.get('droop') and len(case['droop']) > 1:
+            d = case['droop']
+            yield 'droop-groups', join(tokens(case, ballots, droop_groups=[[x] for x in d])), True
+            yield 'droop-groups', join(tokens(case, ballots, droop_groups=[d[:1], d[1:]])), True
         if not case.get('full'):
             return
         L = tokens(case, ballots)
@@ -165,7 +184,7 @@ class C10(Check):
         yield 'nick', (join(tokens(case, ballots, nick=nick)), join(tokens(case, ballots, nick=nick, use_nick=True))), False
 
     def check(self, case, acc):
-        canon_text = join(tokens(case, [(m, tuple(r)) for m, r in case['b']]))
+        canon_text = join(tokens(case, [(m, tuple(tuple(x) if isinstance(x, list) else x for x in r)) for m, r in case['b']]))
         base = {}
         for cfg in case['cfgs']:
             t = trace.run(canon_text, cfg, snapshots=False)
